@@ -209,7 +209,23 @@ impl VoiceSpec {
             }
         }
         let pdf_pos: Vec<String> = self.streams.iter().map(|s| put(&s.model.pdf_bytes())).collect();
-        let tree_pos: Vec<String> = self.streams.iter().map(|s| put(s.model.tree_text_styled(self.style).as_bytes())).collect();
+        // streams that were clustered jointly have the same tree text (the prefix of a leaf name means
+        // nothing): such text is stored once and both STREAM_TREE entries name the same range, while
+        // every stream keeps its own PDF block
+        let mut stored_trees: Vec<(String, String)> = Vec::new();
+        let tree_pos: Vec<String> = self
+            .streams
+            .iter()
+            .map(|s| {
+                let text = s.model.tree_text_styled(self.style);
+                if let Some((_, r)) = stored_trees.iter().find(|(t, _)| *t == text) {
+                    return r.clone();
+                }
+                let r = put(text.as_bytes());
+                stored_trees.push((text, r.clone()));
+                r
+            })
+            .collect();
         let gv_pdf_pos: Vec<Option<String>> = self.streams.iter().map(|s| s.gv.as_ref().map(|g| put(&g.pdf_bytes()))).collect();
         let gv_tree_pos: Vec<Option<String>> = self
             .streams
@@ -423,7 +439,9 @@ pub const WIN_A5: &[f64] = &[0.285714, -0.142857, -0.285714, -0.142857, 0.285714
 
 /// Window sets, simplest first.
 pub fn gen_windows(t: &mut Tape) -> Vec<Vec<f64>> {
-    match t.weighted(&[4, 4, 8, 2, 2, 1, 1]) {
+    match t.weighted(&[8, 8, 16, 4, 4, 2, 2, 1]) {
+        // an even width (backward difference over t-1 and t: the extra tap lies left of the centre)
+        7 => vec![WIN_STATIC.to_vec(), vec![-1.0, 1.0]],
         0 => vec![WIN_STATIC.to_vec()],
         1 => vec![WIN_STATIC.to_vec(), WIN_D3.to_vec()],
         2 => vec![WIN_STATIC.to_vec(), WIN_D3.to_vec(), WIN_A3.to_vec()],
@@ -701,7 +719,10 @@ pub fn gen_voice(t: &mut Tape, o: GenOpts) -> VoiceSpec {
     }
     if lsp {
         options.push(format!("GAMMA={}", stage));
-        options.push(format!("LN_GAIN={}", use_log_gain as u8));
+        // LN_GAIN=0 is the default: a file may leave the entry out
+        if use_log_gain || t.chance(0.5) {
+            options.push(format!("LN_GAIN={}", use_log_gain as u8));
+        }
     } else if t.chance(0.3) {
         options.push("GAMMA=0".to_string());
     }
@@ -760,12 +781,14 @@ pub fn gen_voice(t: &mut Tape, o: GenOpts) -> VoiceSpec {
         for w in 0..lnw {
             v[lnw + w] = if w == 0 { t.log_uniform(0.001, 0.1) as f32 } else { t.log_uniform(1e-4, 0.02) as f32 };
         }
-        v[2 * lnw] = match t.weighted(&[6, 4, 6, 1, 1]) {
+        v[2 * lnw] = match t.weighted(&[12, 8, 12, 2, 2, 1]) {
             0 => 0.95,
             1 => 0.05,
             2 => t.unit() as f32,
             3 => 0.0,
-            _ => 1.0,
+            4 => 1.0,
+            // a weight that is tiny but not zero (a subnormal f32): above a threshold of 0
+            _ => *t.pick(&[1e-40f32, 1e-45, 1.0e-38]),
         };
         v
     });
@@ -810,6 +833,24 @@ pub fn gen_voice(t: &mut Tape, o: GenOpts) -> VoiceSpec {
             }
             v
         });
+        // one low-pass stream in eight was clustered JOINTLY with the spectrum: same questions, same
+        // trees (same text in the file, stored once), its own distributions
+        let lpf_model = if t.chance(0.125) {
+            let mcp = &streams[0].model;
+            let trees: Vec<TreeSpec> = mcp
+                .trees
+                .iter()
+                .map(|tr| {
+                    let own = lpf_model.trees.iter().find(|x| x.state == tr.state).unwrap_or(&lpf_model.trees[0]);
+                    let mut tied = tr.clone();
+                    tied.pdfs = (0..tr.pdfs.len()).map(|i| own.pdfs[i % own.pdfs.len()].iter().map(|v| v * (1.0 + 0.05 * i as f32)).collect()).collect();
+                    tied
+                })
+                .collect();
+            ModelSpec { prefix: mcp.prefix.clone(), questions: mcp.questions.clone(), trees, pdf_len: lpf_model.pdf_len }
+        } else {
+            lpf_model
+        };
         // rare but supported: GV on the low-pass stream as well
         let lpf_gv = t.chance(0.25);
         let lpf_gv_model = if lpf_gv {
